@@ -536,11 +536,22 @@ func NestedRender() {
 	ctx.Set("xs", []int{1, 2})
 	ctx.Set("people", []S{{Name: "p"}, {Name: "q"}})
 	ctx.Set("team", func() S { return S{Name: "t"} })
+	// a panic of the engine inside a nested render is the engine's panic, although the
+	// call that surrounds the helper turns it into an error: the helpers watch for it
+	enginePanicked := false
+	watch := func() {
+		if r := recover(); r != nil {
+			enginePanicked = true
+			panic(r)
+		}
+	}
 	ctx.Set("rend", func(s string, help plush.HelperContext) (template.HTML, error) {
+		defer watch()
 		out, err := help.Render(s)
 		return template.HTML(out), err
 	})
 	ctx.Set("inchild", func(help plush.HelperContext) (template.HTML, error) {
+		defer watch()
 		out, err := help.BlockWith(help.New())
 		return template.HTML(out), err
 	})
@@ -567,6 +578,7 @@ func NestedRender() {
 	default:
 		total("<%= inchild() { %>"+sn+"<% } %>", ctx)
 	}
+	vrt.Assert(!enginePanicked, "the engine does not panic inside a nested render either")
 }
 
 // ---- Go functions with parameters of less common types (arrays, pointers to
